@@ -174,7 +174,8 @@ def reshape_identity(ctx, R, rule):
                         t.slice) == '%s.uuid' % src(st.value):
             first_cont = [x for x in own_nodes_of(lp)
                           if isinstance(x, ast.Continue)]
-            okc = all(g.dominates(st, x) for x in first_cont)
+            okc = all(g.dominates(st, x) for x in first_cont) and not \
+                C.skip_conds(st, lp)
             cache = src(t.value)
             why = '%s[%s] = %s' % (cache, src(t.slice), src(st.value))
     R.ob(rule, 'reshape:cache-prefers-checked-object', okc,
@@ -183,10 +184,17 @@ def reshape_identity(ctx, R, rule):
          func=f)
     # allocations are re-pointed from that cache before the write
     ra = C.calls_to(ctx, f, 'placement.objects.allocation:replace_all')
+    deps = C.Deps(f)
+
+    def from_cache(x):
+        return cache is not None and (
+            isinstance(x, ast.Subscript) and src(x.value) == cache or
+            isinstance(x, ast.Call) and isinstance(x.func, ast.Attribute)
+            and x.func.attr == 'get' and src(x.func.value) == cache)
     swaps = [n for n in own_nodes(f.node) if isinstance(n, ast.Assign)
              and any(src(t).endswith('.resource_provider')
-                     for t in n.targets) and cache is not None
-             and src(n.value).startswith(cache + '[')]
+                     for t in n.targets) and deps.reaches(n.value,
+                                                          from_cache)]
     oks = len(ra) == 1 and len(swaps) == 1
     if oks:
         lp = getattr(swaps[0], '_parent', None)
